@@ -50,7 +50,11 @@ type Ctx struct {
 }
 
 func NewCtx(p *Program, prop, tier string) *Ctx {
-	return &Ctx{P: p, Prop: prop, Tier: tier, Analysed: map[string]int{}, Canary: map[string]bool{}, start: time.Now()}
+	c := &Ctx{P: p, Prop: prop, Tier: tier, Analysed: map[string]int{}, Canary: map[string]bool{}, start: time.Now()}
+	for _, n := range p.Renames {
+		c.Notes = append(c.Notes, "renamed function recognised: "+n)
+	}
+	return c
 }
 
 // Require records one obligation.
